@@ -596,19 +596,37 @@ def first_isolated_step(cx, A):
     return None
 
 
-def first_zigzag_step(cx, A, solved_times=()):
-    """first report step from which a tank level zig-zags (up-down-up by more than 0.1 m per step): the explicit tank
-    integration of both engines overshoots its equilibrium there (no link changes status meanwhile), every difference - EPANET's own short unit constants
-    included - is amplified from step to step, and no fixed allowance is sound"""
-    for k in range(2, len(A.times)):
+def zigzag_time(cx, T):
+    """instant from which a tank level zig-zags in the stepped EPANET run: up-down-up (or down-up-down) by more than
+    0.1 m over three consecutive solved instants while no link changes between open and closed.  The explicit tank
+    integration of both engines overshoots its equilibrium there; every difference - EPANET's own short unit constants,
+    one engine solving at an instant the other skips - is amplified from step to step and no fixed allowance is sound.
+    (A pump cycling on a level control also zig-zags, but with status changes at the turning points.)"""
+    best = None
+    for t in cx.tanks:
+        h = T.tank_head[t]
+        for i in range(2, len(T.all_times)):
+            d1, d2 = h[i - 1] - h[i - 2], h[i] - h[i - 1]
+            if d1 * d2 < 0 and min(abs(d1), abs(d2)) > 0.1 and T.open_all[i - 2] == T.open_all[i - 1] == T.open_all[i]:
+                if best is None or T.all_times[i - 1] < best:
+                    best = T.all_times[i - 1]
+                break
+    return best
+
+
+def fast_tank_time(cx, T):
+    """first solved instant at which the net inflow of a tank would carry it over more than half of what is left of its
+    range (in the direction of the flow) within one hydraulic step: a limit event or an overshoot is imminent, and what
+    the engines do from there on is an artefact of their time stepping, not of the model"""
+    hyd = cx.net['opts']['hyd']
+    for i, ts in enumerate(T.all_times):
         for t in cx.tanks:
-            d1 = A.node['head'][t][k - 1] - A.node['head'][t][k - 2]
-            d2 = A.node['head'][t][k] - A.node['head'][t][k - 1]
-            same_status = all(A.link['status'][l][k - 2] == A.link['status'][l][k - 1] == A.link['status'][l][k]
-                              for l in cx.lnames)
-            quiet = not any(A.times[k - 2] < ts < A.times[k] and ts % cx.net['opts']['hyd'] != 0 for ts in solved_times)
-            if d1 * d2 < 0 and min(abs(d1), abs(d2)) > 0.1 and same_status and quiet:
-                return k - 1      # (a pump cycling on a level control also zig-zags, but with events in between)
+            tk = cx.tank[t]
+            lvl = T.tank_head[t][i] - tk['elev']
+            q = T.tank_inflow[t][i]
+            room = (tk['max'] - lvl) if q > 0 else (lvl - tk['min'])
+            if abs(q) * hyd / cx.tank_area(t, lvl) > 0.5 * max(room, 0.0) and abs(q) > QTOL:
+                return ts
     return None
 
 
@@ -1107,10 +1125,16 @@ def evaluate(case):
         n = min(n, cut)
     if n == 0:
         return inconclusive('a junction is cut off from every source at t = 0 (no defined EPANET solution)', tags), diag
-    zz = first_zigzag_step(cx, E1, T.all_times)
-    if zz is not None and zz < n:
-        tags.append('cut:tank_zigzag')
-        n = zz
+    tz = zigzag_time(cx, T)
+    if tz is not None:
+        keep = sum(1 for t in E1.times[:n] if t < tz)
+        if keep < n:
+            tags.append('cut:tank_zigzag')
+            n = keep
+    if n == 0:
+        return inconclusive('a tank level zig-zags from the first hydraulic step on (unstable explicit tank integration)', tags), diag
+    tf = fast_tank_time(cx, T)
+    n_w = n if tf is None else sum(1 for t in E1.times[:n] if t <= tf)
     thr_ev = threshold_events(cx, T)
     # ------------------------------------------------------------------ relation 1
     decided = 0
